@@ -54,6 +54,9 @@ def handle (st : St) (ws : List String) : Option (St × String) :=
       match handleAsdu st.env st.srv (nat! conn) (nat! now) (decodeReq a) with
       | none => pure (st, "nothandled" ++ summary st.srv)
       | some (s, outs) => pure ({ st with srv := s }, render st.p (some a) outs ++ summary s)
+  | ["fs.accept", acc, rerr] =>
+    let st := { st with env := { st.env with accept := nat! acc = 1, readyErr := nat! rerr } }
+    some (st, "ok" ++ summary st.srv)
   | ["fs.task", conn, now] =>
     let (s, outs) := runTask st.env st.srv (nat! conn) (nat! now)
     some ({ st with srv := s }, render st.p none outs ++ summary s)
